@@ -186,7 +186,7 @@ class FX(object):
     pass
 
 
-FIXTURE_NAMES = ['lit', 'I_shl', 'I_add', 'I_push', 'I_pop', 'I_moves', 'I_sete', 'I_div', 'I_sse', 'I_rep67', 'I_popad', 'K', 'w', 'T', 'U', 'Q', 'C', 'pc', 'regs', 'sys.path']
+FIXTURE_NAMES = ['lit', 'I_shl', 'I_add', 'I_push', 'I_pop', 'I_moves', 'I_sete', 'I_div', 'I_sse', 'I_rep67', 'I_popad', 'K', 'w', 'T', 'U', 'Q', 'Q2', 'C', 'pc', 'regs', 'sys.path']
 
 
 def build_fixtures():
@@ -213,6 +213,7 @@ def build_fixtures():
     f.T = E.ExprOp('+', E.ExprOp('+', S.eax, f.w), E.ExprInt32(0))    # shared tree over a module-level register and w
     f.U = E.ExprOp('+', f.w, E.ExprInt32(1))
     f.Q = E.ExprMem(E.ExprOp('+', S.esp, E.ExprInt32(4)))
+    f.Q2 = E.ExprMem(E.ExprInt32(0x2000))               # a cell whose address is already in evaluated form, no segment
     # a composition of adjacent slices of one source (what 'or al, al' lifts to), used twice in one tree
     lo, hi = E.ExprSlice(S.edx, 0, 8), E.ExprSlice(S.edx, 8, 16)
     f.C = E.ExprOp('^', E.ExprCompose([(lo, 0, 8), (hi, 8, 16), (E.ExprSlice(S.edx, 16, 32), 16, 32)]),
@@ -226,6 +227,7 @@ def build_fixtures():
     m2.pool[S.ebx] = E.ExprInt32(0)
     m2.pool[f.w] = E.ExprInt32(7)
     m2.pool[S.ecx] = f.K
+    m2.pool[E.ExprMem(E.ExprInt32(0x2000))] = E.ExprInt32(7)
     m2.pool[S.es] = E.ExprInt(MI.uint16(0x23))
     # nodes whose memo attributes are watched (hidden state): every node of the fixture expressions,
     # the module-level registers, the initial pool values
@@ -246,7 +248,7 @@ def build_fixtures():
         if isinstance(e, E.ExprCompose):
             for a, _, _ in e.args:
                 walk(a)
-    for e in [f.w, f.T, f.U, f.Q, f.C, f.pc, f.K] + f.regs:
+    for e in [f.w, f.T, f.U, f.Q, f.Q2, f.C, f.pc, f.K] + f.regs:
         walk(e)
     for m in f.m[1:]:
         for k, v in sorted(m.pool.pool_id.items(), key=lambda kv: kv[0].name):
@@ -287,7 +289,9 @@ def lifter_tables():
     """the register tables the lifter indexes (lists of expressions): small, fingerprinted structurally every time (their
     pickle bytes vary with the memo attributes of the expressions)"""
     S = _ctx['S']
-    return {k: v for k, v in vars(S.ia32_rexpr).items() if type(v) in (dict, list, tuple)}
+    d = {k: v for k, v in vars(S.ia32_rexpr).items() if type(v) in (dict, list, tuple)}
+    d['init_regs'] = S.init_regs            # the table every x86_machine() starts from
+    return d
 
 
 class Tables(object):
@@ -321,10 +325,13 @@ def marks(nodes):
     return ','.join(out)
 
 
-def snapshot(f, tables, with_tables):
+def snapshot(f, tables, with_tables, first=False):
+    """first: the snapshot before the first call of a history describes the tables as they were right after import, before the
+    harness itself made API calls (x86_machine(), dis) to build the fixtures: a fixture-building call that changes a shared table
+    shows up as a table change at the first call of every history"""
     snap = {'p': [fp(f.m[1].pool), fp(f.m[2].pool)],
             'x': [fp(getattr(f, n)) for n in FIXTURE_NAMES[:-1]] + [fp(process_env())],
-            't': (tables.fp() + fp(lifter_tables())[:6]) if with_tables else '',
+            't': (tables.fp() + (_ctx.get('import_lifter_fp') if first and _ctx.get('import_lifter_fp') else fp(lifter_tables())[:6])) if with_tables else '',
             'e': hashlib.md5(marks(f.watched).encode()).hexdigest()[:8],
             's': hashlib.md5(''.join('1' if getattr(n, 'simp', False) else '0' for n in f.watched).encode()).hexdigest()[:8],
             'd': fp(defaults_state())[:8]}
@@ -392,6 +399,9 @@ def _calls():
         'eval_U_m1': ('read', 1, lambda f: ev(f, 1, f.U)),
         'eval_U_m2': ('read', 2, lambda f: ev(f, 2, f.U)),
         'eval_mem_m1': ('read', 1, lambda f: ev(f, 1, f.Q)),
+        'eval_abs_m1': ('read', 1, lambda f: ev(f, 1, f.Q2)),
+        'eval_abs_m2': ('read', 2, lambda f: ev(f, 2, f.Q2)),
+        'new_machine': ('pure', 0, lambda f: sorted((str(k), str(v)) for k, v in EH.x86_machine().pool.pool_id.items())),
         'evi_add_m1': ('write', 1, lambda f: evi(f, 1, f.I_add)),
         'emul_pp_m1': ('write', 1, lambda f: emul(f, 1, [f.I_push, f.I_pop])),
         'emul_es_m1': ('write', 1, lambda f: emul(f, 1, [f.I_moves])),
@@ -431,7 +441,7 @@ def show(v):
 
 def run_history(f, tables, calls, table, detail):
     """execute one history in this (child) process"""
-    snaps = [snapshot(f, tables, True)]
+    snaps = [snapshot(f, tables, True, first=True)]
     out = []
     n = len(calls)
     for j, name in enumerate(calls):
@@ -454,6 +464,7 @@ def main():
     job = json.load(open(sys.argv[1]))
     c = _setup()
     table = _calls()
+    _ctx['import_lifter_fp'] = fp(lifter_tables())[:6]       # before the harness makes its own API calls
     f = build_fixtures()
     tables = Tables()
     tables.fp()                                   # canonical table fingerprint of the fresh state (inherited by children)
